@@ -10,6 +10,7 @@ INVARIANT CountsBounded
 INVARIANT FullGridConserves
 INVARIANT NTestSeesEverything
 PROPERTY ObservationsArePure
+PROPERTY EvaluationsLeaveTheForecast
 PROPERTY FiltersOnlyRemove
 PROPERTY FilterIdempotent
 PROPERTY RoundTrip
